@@ -34,7 +34,8 @@ Inductive sop :=
 | SRemoveFlag (t : tsel) (flag : Z)            (* engine.RemoveModifier *)
 | SGaugeNorm (t : tsel) (amt : float)          (* engine.ModifyGaugeNormalized *)
 | SSetRevivable (t : tsel) (b : bool)          (* content state read by its LimboWaitHeal listener *)
-| SSample.                                     (* content samples Characters()/Enemies()/turn order *)
+| SSample                                      (* content samples Characters()/Enemies()/turn order *)
+| SHeal (targets : list tsel) (amt : float).   (* engine.Heal with a flat heal value (no formula terms, no bonuses) *)
 
 Definition script := list sop.
 
@@ -394,6 +395,28 @@ Section Scripts.
     end.
 
 
+  (* combat.Heal for one target with a flat value and no bonuses: the part that does not fit is cut
+     off against the target's current and maximum HP, the rest goes through ModifyHPByAmount
+     (not damage: the last attacker stays) *)
+  Definition heal_hp (R : runner) (s : sim) (id src : Z) (amt : float) : option sim :=
+    match get_unit (units s) id with
+    | None => Some s
+    | Some u =>
+        let cur := PrimFloat.mul (uhp u) (umax u) in
+        let h := if PrimFloat.ltb (umax u) (PrimFloat.add amt cur)
+                 then PrimFloat.sub amt (PrimFloat.sub (PrimFloat.add amt cur) (umax u)) else amt in
+        let newhp := PrimFloat.add (PrimFloat.mul (uhp u) (umax u)) h in
+        hp_change R s u (clamp01 (PrimFloat.div newhp (umax u))) false src
+    end.
+  Fixpoint do_heals (R : runner) (s : sim) (self : Z) (amt : float) (ts : list Z) : option sim :=
+    match ts with
+    | [] => Some s
+    | t :: ts' => match heal_hp R s t self amt with
+                  | None => None
+                  | Some s1 => do_heals R s1 self amt ts'
+                  end
+    end.
+
   (* performHit for every target, in order; [R] runs the content's HitEnd listener *)
   Fixpoint do_hits (R : runner) (s : sim) (self : Z) (dmg : float) (ts : list Z) : option sim :=
     match ts with
@@ -482,6 +505,12 @@ Section Scripts.
         | Some u => Some (upd_unit s (with_rev u b))
         end
     | SSample => Some (emit s [VSample (chars s) (enemies s) (turn_ids s)])
+    | SHeal targets amt =>
+        (* unknown ids are skipped by the content; a heal from a source that is not alive does nothing *)
+        let tids := filter (fun id => match get_unit (units s) id with Some _ => true | None => false end)
+                           (map (resolve self primary) targets) in
+        if (match tids with [] => true | _ => false end) || negb (is_alive s self) then Some s
+        else do_heals R s self amt tids
     end.
 
   Fixpoint exec_list (R : runner) (lm : bool) (s : sim) (self primary : Z) (ops : script) : option sim :=
